@@ -1,29 +1,63 @@
 (* Props/C03.v — C03: streaming join maps equal the relational join for every chunk size.
-   Statements only; proofs are in Proofs/Join*.v. *)
+   Statements only; proofs are in Proofs/Join*.v (model: Model/Join.v, spec: Spec/JoinSpec.v).
+
+   `streamed (mkvar k is_left) L R inv cs` is the model of generate_ordered_map_to_{left,inner}[_left_unique|
+   _right_unique|_both_unique]_streamed; `expected k is_left inv L R` is (left map or [], right map) of the
+   relational join `join_spec`; `kind_pre` is "sorted ascending, strictly on the side(s) declared unique";
+   `chunks_ok` says that no window of cs keys on a trimmed side is a single run continuing beyond it. *)
 From Coq Require Import ZArith List.
-From EV Require Import Res Arr Join JoinSpec JoinBase JoinIface JoinDriver JoinMain.
+From EV Require Import Res Arr Join JoinSpec JoinBase JoinIface JoinDriver JoinMain JoinAll.
 Import ListNotations.
 Open Scope Z_scope.
 
-(* Both key columns strictly increasing (the uniqueness both *_both_unique variants assume):
-   for EVERY chunk size >= 1 the streamed left-join / inner-join maps are exactly the relational
-   join; no error, no out-of-bounds access (the model's OOB), no fuel exhaustion (termination). *)
+(* All 8 variants, every chunk size >= 1, all sorted inputs (truthful uniqueness): the result is exactly the
+   relational join, or the clear ValueError of get_next_chunk - and that error only when a run of equal keys
+   fills a whole chunk of a trimmed side (LongRun). *)
+Theorem c03_streamed_total : forall k is_left L R inv cs,
+  kind_pre k L R -> 1 <= cs ->
+  streamed (mkvar k is_left) L R inv cs = Ok (expected k is_left inv L R) \/
+  (streamed (mkvar k is_left) L R inv cs = Raise E_ValueError /\ LongRun k is_left L R cs).
+Proof. exact streamed_total. Qed.
+Print Assumptions c03_streamed_total.
+
+Theorem c03_streamed_correct : forall k is_left L R inv cs,
+  kind_pre k L R -> 1 <= cs -> chunks_ok k cs L R ->
+  streamed (mkvar k is_left) L R inv cs = Ok (expected k is_left inv L R).
+Proof. exact streamed_correct. Qed.
+Print Assumptions c03_streamed_correct.
+
+(* chunking is unobservable *)
+Theorem c03_chunking_unobservable : forall k is_left L R inv cs1 cs2,
+  kind_pre k L R -> 1 <= cs1 -> 1 <= cs2 -> chunks_ok k cs1 L R -> chunks_ok k cs2 L R ->
+  streamed (mkvar k is_left) L R inv cs1 = streamed (mkvar k is_left) L R inv cs2.
+Proof. exact streamed_chunking_unobservable. Qed.
+Print Assumptions c03_chunking_unobservable.
+
+Theorem c03_results_agree : forall k is_left L R inv cs1 cs2 r1 r2,
+  kind_pre k L R -> 1 <= cs1 -> 1 <= cs2 ->
+  streamed (mkvar k is_left) L R inv cs1 = Ok r1 -> streamed (mkvar k is_left) L R inv cs2 = Ok r2 -> r1 = r2.
+Proof. exact streamed_results_agree. Qed.
+Print Assumptions c03_results_agree.
+
+(* both sides unique: no side is trimmed, so there is no error case at all *)
 Theorem c03_both_unique_correct : forall is_left L R inv cs,
   1 <= cs -> ssorted L -> ssorted R ->
   streamed (mkvar KBU is_left) L R inv cs = Ok (expected KBU is_left inv L R).
 Proof. exact streamed_both_unique_correct. Qed.
 Print Assumptions c03_both_unique_correct.
 
-(* chunking is unobservable (both-unique variants) *)
-Theorem c03_both_unique_chunking_unobservable : forall is_left L R inv cs1 cs2,
-  1 <= cs1 -> 1 <= cs2 -> ssorted L -> ssorted R ->
-  streamed (mkvar KBU is_left) L R inv cs1 = streamed (mkvar KBU is_left) L R inv cs2.
-Proof.
-  intros. rewrite !streamed_both_unique_correct by assumption. reflexivity.
-Qed.
-Print Assumptions c03_both_unique_chunking_unobservable.
+(* sufficient conditions for chunks_ok that a caller can check *)
+Theorem c03_windows_ok_short : forall cs X, len X <= cs -> windows_ok cs X.
+Proof. exact windows_ok_short. Qed.
+Print Assumptions c03_windows_ok_short.
 
-Example c03_both_unique_nonvacuous :
-  ssorted [1;3;5;7] /\ ssorted [0;3;4;7;9] /\
-  streamed (mkvar KBU true) [1;3;5;7] [0;3;4;7;9] (-1) 2 = Ok ([], [-1;1;-1;3]).
-Proof. repeat split; try (apply ssortedb_ssorted; reflexivity). Qed.
+Theorem c03_windows_ok_unique : forall cs X, 2 <= cs -> ssorted X -> windows_ok cs X.
+Proof. exact windows_ok_ssorted. Qed.
+Print Assumptions c03_windows_ok_unique.
+
+(* the hypotheses are satisfiable by a non-trivial input (duplicates on both sides, several chunks) *)
+Theorem c03_nonvacuous :
+  kind_pre KGen [1;1;2;3;3] [1;3;3;4] /\ chunks_ok KGen 3 [1;1;2;3;3] [1;3;3;4] /\
+  streamed (mkvar KGen true) [1;1;2;3;3] [1;3;3;4] (-1) 3 = Ok ([0;1;2;3;3;4;4], [0;0;-1;1;2;1;2]).
+Proof. exact all_hyps_nonvacuous. Qed.
+Print Assumptions c03_nonvacuous.
